@@ -135,8 +135,9 @@ def utils_mod():
 
 
 def shapes_of(B):
-    """batch shapes exercised for a stack of B units: the stack, a 2-d grid, and single units"""
-    out = [("stack", None)]
+    """batch shapes exercised for a stack of B units: the stack (B,..), a batch of one (1,..), a 2-d grid (2,B/2,..);
+    single units (no batch axis) are added by the callers"""
+    out = [("stack", None), ("one", (1,))]
     if B >= 4:
         a = 2
         b = B // 2
@@ -248,7 +249,7 @@ def check_isometry(V, F, X, R, cases, fo, out, tag):
         # a genuine isometry of a diagonal form: when the signs of all rows are forced to be the diagonal
         Fd = np.diag(F)
         pres_ok = np.ones(B, dtype=bool)
-        if np.array_equal(F, np.diag(Fd)) and len(set(Fd[k:].tolist())) <= 1:
+        if np.array_equal(F, np.diag(Fd)) and (np.abs(Fd) == 1).all() and len(set(Fd[k:].tolist())) <= 1:
             forced = (eps == Fd[:k].astype(int)).all(axis=-1)
             Gt = out.swapaxes(-1, -2) @ F @ out
             pres = (np.abs(G - F).max(axis=(-1, -2)) <= TOL * scale) & (np.abs(Gt - F).max(axis=(-1, -2)) <= TOL * scale)
@@ -346,7 +347,7 @@ def replay_gs(run, V, recs, single_every):
             if grid is None:
                 Xs, Rs, cs = X, R, cases
             else:
-                m = grid[0] * grid[1]
+                m = int(np.prod(grid))
                 Xs, Rs, cs = X[:m], R[:m], cases[:m]
             shp = (len(cs),) if grid is None else grid
             # indefinite_orthogonalize
@@ -463,7 +464,7 @@ def replay_forms(run, V, recs):
                     elif grid is None:
                         idxs = [list(range(len(cases)))]
                     else:
-                        idxs = [list(range(grid[0] * grid[1]))]
+                        idxs = [list(range(int(np.prod(grid))))]
                     for idx in idxs:
                         A = Bm[idx]
                         if tag == "unit":
@@ -544,7 +545,7 @@ def replay_kernels(run, V, recs, single_every):
             if grid is None:
                 variants.append((tag, M, cases, (len(cases),)))
             else:
-                q = grid[0] * grid[1]
+                q = int(np.prod(grid))
                 variants.append((tag, M[:q].reshape(grid + (m, n)), cases[:q], grid))
         for i in range(0, len(cases), single_every):
             variants.append(("unit", M[i], cases[i:i + 1], ()))
@@ -605,7 +606,7 @@ def replay_spheres(run, V, recs, single_every):
             if grid is None:
                 variants.append((tag, slice(None), (len(cases),)))
             else:
-                variants.append((tag, slice(0, grid[0] * grid[1]), grid))
+                variants.append((tag, slice(0, int(np.prod(grid))), grid))
         for i in range(0, len(cases), single_every):
             variants.append(("unit", slice(i, i + 1), ()))
         for tag, sl, shp in variants:
@@ -682,7 +683,7 @@ def replay_arcs(run, V, recs, single_every):
             if grid is None:
                 variants.append((tag, slice(None), (len(cs),)))
             else:
-                variants.append((tag, slice(0, grid[0] * grid[1]), grid))
+                variants.append((tag, slice(0, int(np.prod(grid))), grid))
         for i in range(0, len(cs), single_every):
             variants.append(("unit", slice(i, i + 1), ()))
         for tag, sl, shp in variants:
@@ -737,7 +738,7 @@ def run(run, replay=None):
         "(the bounded-condition clause); exhaustive for n <= 3, TLC simulation (seeded) for n = 4..6",
         "kernel: integer matrices with entries in [-1, 1] or [-2, 2], all ranks including rank-deficient, tall and zero rows; "
         "a batch holds matrices of equal rank (the function's documented matching_rank mode)",
-        "spheres: n = 2, 3 (4 thorough); arcs: angles on the grid pi/12 (and pi/30 thorough), ties excluded",
+        "spheres: n = 2, 3 (4 thorough); arcs: angles on the grid pi/12 (and pi/24 thorough), ties excluded",
         "tolerance 1e-9 (1e-8 for kernels and spheres) times the squared size of the compared rows; SVD/eigh-dependent rows are bound by laws only",
     ]
     W = 4
@@ -747,14 +748,14 @@ def run(run, replay=None):
             forms_job("forms_n3_rows2", 3, 1, 2, rat=True, workers=W),
             forms_job("forms_n3_sim", 3, 1, 3, workers=W, simulate=60, depth=6),
             forms_job("forms_n3_cong", 3, 1, 2, mincong=2, maxcong=2, formrng=2, workers=W, simulate=30, depth=8),
-            forms_job("forms_n3_walk", 3, 1, 0, maxcong=99, formrng=2, workers=W),
+            forms_job("forms_n3_walk", 3, 1, 0, maxcong=3, formrng=2, workers=W),
             forms_job("forms_sym_n2", 2, 1, 0, formrng=3, workers=2, init="InitSym"),
             forms_job("forms_sym_n3", 3, 1, 0, formrng=1, workers=2, init="InitSym"),
             forms_job("forms_sym_n3_sim", 3, 1, 3, formrng=1, workers=W, simulate=40, depth=5, init="InitSym"),
             forms_job("forms_n4_sim", 4, 2, 4, supp=3, workers=W, simulate=40, depth=8),
             forms_job("forms_n5_sim", 5, 1, 5, supp=4, mincong=0, maxcong=0, workers=W, simulate=25, depth=8),
-            forms_job("forms_n6_sim", 6, 1, 6, supp=3, workers=W, simulate=25, depth=10),
-            forms_job("forms_n6_cong", 6, 1, 3, supp=3, mincong=4, maxcong=4, formrng=2, workers=W, simulate=20, depth=10),
+            forms_job("forms_n6_sim", 6, 1, 6, supp=3, workers=W, simulate=12, depth=10),
+            forms_job("forms_n6_cong", 6, 1, 3, supp=3, mincong=3, maxcong=3, formrng=2, workers=W, simulate=10, depth=10),
             kernel_job("kernel_n2", 2, 1, 3, workers=2),
             kernel_job("kernel_n3", 3, 1, 3, supp=2, workers=W),
             kernel_job("kernel_n5_sim", 5, 1, 6, supp=3, workers=W, simulate=60, depth=8),
@@ -771,17 +772,17 @@ def run(run, replay=None):
             forms_job("forms_n3", 3, 1, 3, rat=True, workers=8),
             forms_job("forms_n3_cong", 3, 1, 2, mincong=1, maxcong=1, formrng=1, workers=8),
             forms_job("forms_n3_walk", 3, 1, 0, maxcong=99, formrng=2, workers=W),
-            forms_job("forms_n4_walk", 4, 1, 0, maxcong=3, formrng=1, workers=8),
-            forms_job("forms_sym_n2", 2, 2, 2, formrng=3, workers=W, init="InitSym"),
+            forms_job("forms_n4_walk", 4, 1, 0, maxcong=2, formrng=1, workers=8),
+            forms_job("forms_sym_n2", 2, 1, 2, formrng=3, workers=W, init="InitSym"),
             forms_job("forms_sym_n3", 3, 1, 1, formrng=1, workers=W, init="InitSym"),
             forms_job("forms_sym_n3_r2", 3, 1, 0, formrng=2, workers=8, init="InitSym"),
             forms_job("forms_sym_n3_sim", 3, 1, 3, formrng=1, workers=W, simulate=400, depth=5, init="InitSym"),
             forms_job("forms_n4_sim", 4, 2, 4, workers=W, simulate=400, depth=8),
             forms_job("forms_n4_cong", 4, 1, 4, mincong=3, maxcong=3, formrng=2, workers=W, simulate=300, depth=10),
             forms_job("forms_n5_sim", 5, 1, 5, workers=W, simulate=300, depth=8),
-            forms_job("forms_n5_cong", 5, 1, 5, supp=3, mincong=4, maxcong=4, formrng=2, workers=W, simulate=200, depth=12),
-            forms_job("forms_n6_sim", 6, 1, 6, supp=4, workers=W, simulate=300, depth=10),
-            forms_job("forms_n6_cong", 6, 1, 6, supp=3, mincong=5, maxcong=5, formrng=2, workers=W, simulate=200, depth=14),
+            forms_job("forms_n5_cong", 5, 1, 5, supp=3, mincong=4, maxcong=4, formrng=2, workers=W, simulate=100, depth=12),
+            forms_job("forms_n6_sim", 6, 1, 6, supp=4, workers=W, simulate=150, depth=10),
+            forms_job("forms_n6_cong", 6, 1, 6, supp=3, mincong=4, maxcong=4, formrng=2, workers=W, simulate=50, depth=14),
             kernel_job("kernel_n2", 2, 2, 3, workers=W),
             kernel_job("kernel_n3", 3, 1, 4, supp=2, workers=8),
             kernel_job("kernel_n3_full", 3, 1, 3, workers=W),
@@ -790,13 +791,13 @@ def run(run, replay=None):
             sphere_job("sphere_n2_box", 2, 3, False, workers=8),
             sphere_job("sphere_n2_shell", 2, 1, True, 25, 5, workers=W),
             sphere_job("sphere_n3_box", 3, 1, False, workers=W, simulate=500, depth=6),
-            sphere_job("sphere_n3_shell", 3, 1, True, 9, 3, workers=W, simulate=1000, depth=6),
-            sphere_job("sphere_n4_shell", 4, 1, True, 4, 2, workers=W, simulate=300, depth=7),
+            sphere_job("sphere_n3_shell", 3, 1, True, 9, 3, workers=W, simulate=250, depth=6),
+            sphere_job("sphere_n4_shell", 4, 1, True, 4, 2, workers=W, simulate=80, depth=7),
             arcs_job("arcs_12", 12, workers=W),
-            arcs_job("arcs_30", 30, workers=8),
+            arcs_job("arcs_24", 24, workers=8),
         ]
-        single_every = 7
-        parallel = 3
+        single_every = 11
+        parallel = 4
     import time
     t0 = time.time()
     recs = run_jobs(run, jobs, parallel)
